@@ -27,4 +27,4 @@ DELIVERABLES (write them into {wt}/SEED/):
  1. patch.diff  - `git diff` of your source change (source files only; not the SEED directory).
  2. a demonstration: a small Go test file, Go program or shell script (put it in SEED/, say how to run it, e.g. copy to a package dir and `go test -run X`) that FAILS with your change and PASSES without it, exercising the property's observable behaviour.
  3. meta.json - {{"property": "{pid}", "summary": "...what the change does...", "needs": "...what specific input/sequence/schedule makes it manifest...", "demo": "exact command(s) to run the demonstration from the worktree root", "ran": ["commands you ran and their outcome"]}}
-Verify yourself that (a) the project builds, (b) the existing tests of the touched packages and ./cmd/pint pass with the change, (c) the demonstration fails with the change and passes without it (use `git stash` or `git apply -R`). Leave the worktree with the change applied. In your final answer give a 5-line summary.""")
+Verify yourself that (a) the project builds, (b) the existing tests of the touched packages and ./cmd/pint pass with the change, (c) the demonstration fails with the change and passes without it (use `git diff > /tmp/x.diff; git apply -R /tmp/x.diff` and `git apply /tmp/x.diff` to restore; do NOT use `git stash`, it is shared with other worktrees). Leave the worktree with the change applied. In your final answer give a 5-line summary.""")
